@@ -66,7 +66,16 @@ def main(argv):
             results.append(res)
             print("%-6s %-70s %s" % ("ok" if res["ok"] else "MISSED", res.get("patch"), (res.get("violations") or [""])[0][:90]), flush=True)
     (V / "selftest").mkdir(exist_ok=True)
-    (V / "selftest" / "RESULTS.json").write_text(json.dumps(results, indent=1))
+    out = V / "selftest" / "RESULTS.json"
+    if want and out.exists():
+        # a run for some properties only: keep the recorded results of the others
+        by = {r.get("patch"): r for r in json.loads(out.read_text())}
+        for r in results:
+            by[r.get("patch")] = r
+        merged = [r for p, r in sorted(by.items(), key=lambda kv: str(kv[0])) if p and (V / p).exists()]
+        out.write_text(json.dumps(merged, indent=1))
+    else:
+        out.write_text(json.dumps(results, indent=1))
     bad = [r for r in results if not r["ok"]]
     print("selftest: %d changes, %d as expected, %d not" % (len(results), len(results) - len(bad), len(bad)))
     return 1 if bad else 0
